@@ -11,6 +11,8 @@ mod c04;
 mod pwstr;
 mod c05;
 mod c16;
+#[cfg(feature = "nightly")]
+mod c16n;
 mod c11;
 mod c06;
 #[cfg(feature = "nightly")]
